@@ -13,6 +13,7 @@ CONSTANTS
   Others = {}
   FixF1 = TRUE
   FixF2 = TRUE
+  FixF3 = TRUE
 VIEW View
 INVARIANTS NoEarlyEvent NoLoss Ordered Reconstruct CacheFollows FireOnlyIf FireIf
 CHECK_DEADLOCK FALSE
